@@ -68,6 +68,9 @@ def eval_ext(toks, state):
     if op == "setpal":
         objs[toks[1]].set_HTMLColorResiduePalette(real.dict_tok(toks[2]))
         return ("none",)
+    if op == "plot":
+        from . import real_plots
+        return real_plots.run_plot(toks, state)
     if op == "wlrun":
         from . import real_wl
         return real_wl.run_wl(toks)
